@@ -14,7 +14,7 @@ import (
 
 // Dgram is one datagram on the simulated wire.
 type Dgram struct {
-	ID     uint64       // unique id of the original transmission (0 for attacker-made datagrams)
+	ID     uint64       // unique id of the original transmission (>= 1<<40 for attacker-made datagrams, which also carry Mut)
 	Src    *net.UDPAddr // address of the sending endpoint
 	Dst    *net.UDPAddr
 	Data   []byte
@@ -101,6 +101,7 @@ type Net struct {
 	events eventHeap
 	seq    uint64
 	nextID uint64
+	injID  uint64
 	burst  map[string]int
 	// Blocked, when set, is consulted for every transmission (partitions, outages).
 	Blocked func(src, dst *net.UDPAddr, now time.Duration) bool
@@ -177,6 +178,8 @@ func (n *Net) Inject(from, dst *net.UDPAddr, data []byte, delay time.Duration, t
 	d := &Dgram{Src: from, From: from, Dst: dst, Data: append([]byte(nil), data...), SentAt: n.r.Now(), Mut: "attacker", Tag: tag}
 	n.mu.Lock()
 	n.Digest = splitmix(n.Digest ^ hashBytes(data) ^ uint64(n.r.Now()))
+	n.injID++
+	d.ID = 1<<40 + n.injID // unique, outside the id space of real transmissions; Mut marks it as attacker-made
 	n.mu.Unlock()
 	n.schedule(n.r.Now()+delay, d, nil)
 }
